@@ -33,6 +33,8 @@ pub enum Kind {
     Comment,
     RawText,
     Cdata,
+    /// the unread remainder of the body (an incomplete trailing token)
+    Incomplete,
 }
 
 #[derive(Debug, Clone)]
@@ -53,7 +55,7 @@ pub fn spans(body: &[u8]) -> Vec<Span> {
         let len = tok.raw().len();
         if tt == TokenType::ErrorToken {
             if len > 0 {
-                out.push(Span { kind: Kind::Tag, start: pos, end: pos + len });
+                out.push(Span { kind: Kind::Incomplete, start: pos, end: pos + len });
             }
             break;
         }
@@ -87,22 +89,41 @@ pub fn spans(body: &[u8]) -> Vec<Span> {
 }
 
 /// Cut positions affected by known finding D7: strictly inside a comment / doctype / CDATA token, or anywhere from the
-/// end of a raw-text start tag up to (excluding) the end of the end tag that closes it.
+/// end of a raw-text start tag up to (excluding) the end of the end tag that closes it - provided the comment / raw text
+/// contains something that reads as markup once the context is lost (otherwise the loss is harmless and the cut is tested).
+/// Does re-reading these bytes as ordinary markup differ from reading them as comment / raw text?
+/// Only when they contain a '<' that can open a tag, an end tag, a declaration or a processing instruction.
+fn tag_like(content: &[u8]) -> bool {
+    content.windows(2).any(|w| w[0] == b'<' && (w[1].is_ascii_alphabetic() || w[1] == b'/' || w[1] == b'!' || w[1] == b'?'))
+}
+
 pub fn d7_zone(body: &[u8]) -> Vec<bool> {
     let sp = spans(body);
     let mut z = vec![false; body.len() + 1];
     for (i, s) in sp.iter().enumerate() {
         match s.kind {
             Kind::Comment | Kind::Cdata => {
+                // the finding needs markup inside the comment: losing the context of `<!-- plain -->` changes nothing
+                if !tag_like(&body[(s.start + 1).min(s.end)..s.end]) {
+                    continue;
+                }
                 for c in s.start + 1..s.end {
                     z[c] = true;
                 }
             }
             Kind::RawText => {
+                if !tag_like(&body[s.start..s.end]) {
+                    continue;
+                }
                 // from the end of the start tag (= start of this token) ...
                 let from = s.start;
                 // ... to the end of the following end tag, or the end of the body
-                let to = sp.get(i + 1).map(|n| n.end).unwrap_or(body.len() + 1);
+                // (when the end tag is missing or incomplete the zone reaches the very end: an empty chunk after the
+                // whole body re-tokenises the held-back raw text without its context)
+                let to = match sp.get(i + 1) {
+                    Some(n) if n.kind != Kind::Incomplete => n.end,
+                    _ => body.len() + 1,
+                };
                 for c in from..to.min(body.len() + 1) {
                     z[c] = true;
                 }
@@ -110,7 +131,10 @@ pub fn d7_zone(body: &[u8]) -> Vec<bool> {
             _ => {}
         }
     }
-    // a raw start tag at the very end of a chunk loses its context even when no text follows in the span list
+    // (cuts directly after a raw-text start tag are covered above: the zone starts at the start of the raw text)
+    if true {
+        return z;
+    }
     let mut pos = 0;
     let mut tok = Tokenizer::new(body.to_vec());
     for _ in 0..body.len() + 2 {
@@ -156,6 +180,7 @@ pub fn cut_class(body: &[u8], sp: &[Span], c: usize) -> &'static str {
                 Kind::Comment => "inside-comment",
                 Kind::RawText => "inside-raw-text",
                 Kind::Cdata => "inside-cdata",
+                Kind::Incomplete => "inside-tag",
             };
         }
     }
